@@ -12,7 +12,7 @@ import os
 import random
 import re
 
-from . import common, grammar_common as gc
+from . import common, grammar_common as gc, grammar_reps
 from .c16 import Findings
 from .common import log
 
@@ -119,10 +119,12 @@ def run(rep, tier, seed, selftest):
     sample_ids = set(rnd.sample(range(judged), min(4, judged)))
     samples = []
     kinds_ok = {}
+    byte_classes = set()
     all_kinds = {}
     nontriv = 0
     n = 0
     first_ok = None
+    reps = {}
     with open(obs_path) as f:
         for idx, (case, line) in enumerate(zip(gc.iter_cases(cases_path), f)):
             rt = json.loads(line)
@@ -136,10 +138,12 @@ def run(rep, tier, seed, selftest):
                   lambda msg, case=case, rt=rt: {"case": {"id": case["id"], "focus": case["focus"], "toks": case["toks"], "tree": case["tree"]},
                                                  "source_tokens": gc.canon(case), "message": msg,
                                                  "observed": {k: v for k, v in rt.items() if k != "t0"}})
+            grammar_reps.measure(case, reps)
             ck = gc.node_kinds(case["tree"])
             for kk, vv in ck.items():
                 all_kinds[kk] = all_kinds.get(kk, 0) + vv
             if stats["tree_preserved"] > before:
+                literal_bytes(case["tree"], byte_classes)
                 for kk, vv in ck.items():
                     kinds_ok[kk] = kinds_ok.get(kk, 0) + vv
                 if first_ok is None and rt.get("stable") is True:
@@ -150,6 +154,13 @@ def run(rep, tier, seed, selftest):
                 samples.append({"source_tokens": gc.canon(case), "roundtrip": {k: v for k, v in rt.items() if k not in ("t0",)}})
     if n != judged:
         raise common.ToolError("roundtrip returned %d observations for %d cases" % (n, judged))
+    derived_bytes = set()
+    for c in gc.iter_cases(cases_path):
+        if c["focus"] == "strings":
+            literal_bytes(c["tree"], derived_bytes)
+    need = set(range(0, 32)) | {34, 39, 92, 127, 128, 163, 255}
+    if not need <= derived_bytes:
+        raise common.ToolError("vacuity: no derived string/char literal contains the bytes %s" % sorted(need - derived_bytes))
     log("[replay] %d derived modules (without builtin calls) parsed, rebuilt, parsed, rebuilt: %d trees preserved, %d stable, %d rebuilt texts do not parse" %
         (judged, stats["tree_preserved"], stats["stable"], stats["unparsable"]))
     # ---- corpus ---------------------------------------------------------------------------------------
@@ -214,6 +225,8 @@ def run(rep, tier, seed, selftest):
         "corpus": cstats,
         "production_coverage": d["coverage"],
         "node_kinds_derived": all_kinds,
+        "repetitions_reached": reps,
+        "string_bytes_rebuilt": sorted(byte_classes),
         "node_kinds_in_modules_that_round_trip": kinds_ok,
         "node_kinds_never_round_tripped": sorted(set(all_kinds) - set(kinds_ok)),
         "distinct_findings": len(fnd.by_key),
@@ -229,6 +242,20 @@ def run(rep, tier, seed, selftest):
         "modules the first-generation parser rejects are outside the quantifier (`error-free parsed module`)",
     ]
     return rep.finish("model_checking", coverage, assumptions)
+
+
+def literal_bytes(t, acc):
+    """bytes that occur in string / character literals of a tree"""
+    if isinstance(t, dict):
+        if t.get("k") == "str" and isinstance(t.get("bytes"), list):
+            acc.update(t["bytes"])
+        elif t.get("k") == "char":
+            acc.add(t.get("v"))
+        for v in t.values():
+            literal_bytes(v, acc)
+    elif isinstance(t, list):
+        for v in t:
+            literal_bytes(v, acc)
 
 
 def corrupt(t):
